@@ -2,6 +2,7 @@ package file
 
 import (
 	"crypto/x509"
+	"crypto/x509/pkix"
 	"encoding/asn1"
 	"encoding/hex"
 	"errors"
@@ -117,9 +118,26 @@ func getCertificateInfo(c *x509.Certificate) (Info, error) {
 		info.Attributes = append(info.Attributes, Attribute{"SANs", strings.Join(sans, ", ")})
 	}
 
-	info.Attributes = append(info.Attributes, Attribute{"Signature algorithm", c.SignatureAlgorithm.String()})
+	info.Attributes = append(info.Attributes, Attribute{"Signature algorithm", certSignatureAlgorithm(c)})
 
 	return info, nil
+}
+
+// certSignatureAlgorithm names the signature algorithm; one that crypto/x509 does not know (its String() is "0") is
+// shown by the OID the certificate carries.
+func certSignatureAlgorithm(c *x509.Certificate) string {
+	if c.SignatureAlgorithm != x509.UnknownSignatureAlgorithm {
+		return c.SignatureAlgorithm.String()
+	}
+	var outer struct {
+		TBS       asn1.RawValue
+		Algorithm pkix.AlgorithmIdentifier
+		Signature asn1.BitString
+	}
+	if _, err := asn1.Unmarshal(c.Raw, &outer); err != nil {
+		return "unknown"
+	}
+	return outer.Algorithm.Algorithm.String()
 }
 
 func x509KeyUsages(ku x509.KeyUsage) []string {
